@@ -46,7 +46,7 @@ use std::path::PathBuf;
 use std::sync::atomic::{AtomicU64, Ordering};
 
 // Parquet I/O for batches
-use arrow::array::{ArrayRef, Int64Array, UInt64Array};
+use arrow::array::{Array, ArrayRef, BinaryArray, Int64Array, NullArray, UInt64Array};
 use arrow::datatypes::{DataType as ArrowDataType, Field, Schema};
 use arrow::record_batch::RecordBatch;
 use parquet::arrow::arrow_reader::ParquetRecordBatchReaderBuilder;
@@ -809,10 +809,52 @@ fn infer_schema_from_updates(updates: &[Update]) -> TupleSchema {
     TupleSchema::new(fields)
 }
 
+/// Whether a typed Arrow column of type `dtype` stores column `col` of the updates
+/// exactly: every value is of that one kind, or Null where the array has a validity
+/// bitmap (the vector arrays are built without one). A schema-less relation accepts any
+/// kind in any column, so this does not always hold.
+fn column_fits_type(updates: &[Update], col: usize, dtype: &DataType) -> bool {
+    let nullable = !matches!(dtype, DataType::Vector { .. } | DataType::VectorInt8 { .. });
+    updates.iter().filter_map(|u| u.data.get(col)).all(|v| {
+        if v.is_null() {
+            nullable
+        } else {
+            std::mem::discriminant(&v.data_type()) == std::mem::discriminant(dtype)
+        }
+    })
+}
+
+/// Build a kind-tagged column: a Binary array whose cells are the JSON encoding of the
+/// values (the encoding the WAL uses: it names the kind and keeps the bits of floats).
+/// The typed conversion never produces a Binary column, so the Arrow type alone tells
+/// the reader how to decode it.
+fn tagged_column(updates: &[Update], col: usize) -> StorageResult<ArrayRef> {
+    let cells = updates
+        .iter()
+        .map(|u| serde_json::to_vec(u.data.get(col).unwrap_or(&Value::Null)))
+        .collect::<Result<Vec<Vec<u8>>, _>>()
+        .map_err(|e| StorageError::Other(format!("Cannot encode value of column {col}: {e}")))?;
+    Ok(Arc::new(BinaryArray::from_iter_values(cells)))
+}
+
+/// Decode a kind-tagged column written by `tagged_column`.
+fn decode_tagged_column(column: &BinaryArray) -> StorageResult<Vec<Value>> {
+    column
+        .iter()
+        .map(|cell| match cell {
+            Some(bytes) => serde_json::from_slice(bytes).map_err(|e| {
+                StorageError::Other(format!("Invalid kind-tagged value in batch file: {e}"))
+            }),
+            None => Ok(Value::Null),
+        })
+        .collect()
+}
+
 /// Write updates to a Parquet file
 ///
 /// The file format is:
-/// - N data columns (from the Tuple)
+/// - N data columns (from the Tuple); a column holding more than one kind of value is
+///   stored kind-tagged (see `tagged_column`), the others as typed Arrow columns
 /// - time column (`UInt64`)
 /// - diff column (Int64)
 fn write_updates_parquet(path: &PathBuf, updates: &[Update]) -> StorageResult<()> {
@@ -839,12 +881,23 @@ fn write_updates_parquet(path: &PathBuf, updates: &[Update]) -> StorageResult<()
         .iter()
         .map(|f| f.as_ref().clone())
         .collect();
-    fields.push(Field::new("time", ArrowDataType::UInt64, false));
-    fields.push(Field::new("diff", ArrowDataType::Int64, false));
-    let full_schema = Arc::new(Schema::new(fields));
 
     // Build columns array
     let mut columns: Vec<ArrayRef> = data_batch.columns().to_vec();
+
+    // The schema is inferred from the first row. A column that also holds other kinds of
+    // values does not fit the typed array built for it (those values would be written as
+    // nulls or zero vectors): store such a column kind-tagged instead.
+    for (col, (_, dtype)) in tuple_schema.fields().iter().enumerate() {
+        if !column_fits_type(updates, col, dtype) {
+            fields[col] = Field::new(fields[col].name().clone(), ArrowDataType::Binary, false);
+            columns[col] = tagged_column(updates, col)?;
+        }
+    }
+
+    fields.push(Field::new("time", ArrowDataType::UInt64, false));
+    fields.push(Field::new("diff", ArrowDataType::Int64, false));
+    let full_schema = Arc::new(Schema::new(fields));
 
     // Add time and diff columns
     let times: Vec<u64> = updates.iter().map(|u| u.time).collect();
@@ -937,28 +990,45 @@ fn read_updates_parquet(path: &PathBuf) -> StorageResult<Vec<Update>> {
             .ok_or_else(|| StorageError::Other("Invalid diff column type".to_string()))?;
 
         // Create a sub-batch with only data columns
-        let data_schema = Arc::new(Schema::new(
-            batch.schema().fields()[..time_col_idx]
-                .iter()
-                .map(|f| f.as_ref().clone())
-                .collect::<Vec<_>>(),
-        ));
-        let data_columns: Vec<ArrayRef> = batch.columns()[..time_col_idx].to_vec();
+        let mut data_fields: Vec<Field> = batch.schema().fields()[..time_col_idx]
+            .iter()
+            .map(|f| f.as_ref().clone())
+            .collect();
+        let mut data_columns: Vec<ArrayRef> = batch.columns()[..time_col_idx].to_vec();
 
         if data_columns.is_empty() {
             // No data columns - shouldn't happen but handle gracefully
             continue;
         }
 
-        let data_batch =
-            RecordBatch::try_new(data_schema, data_columns).map_err(StorageError::Arrow)?;
+        // Kind-tagged columns (see `tagged_column`) are decoded here; the typed
+        // conversion sees an all-null column in their place.
+        let mut tagged: Vec<(usize, Vec<Value>)> = Vec::new();
+        for (col, column) in data_columns.iter_mut().enumerate() {
+            if let Some(cells) = column.as_any().downcast_ref::<BinaryArray>() {
+                tagged.push((col, decode_tagged_column(cells)?));
+                data_fields[col] =
+                    Field::new(data_fields[col].name().clone(), ArrowDataType::Null, true);
+                *column = Arc::new(NullArray::new(batch.num_rows()));
+            }
+        }
+
+        let data_batch = RecordBatch::try_new(Arc::new(Schema::new(data_fields)), data_columns)
+            .map_err(StorageError::Arrow)?;
 
         // Convert data batch back to tuples
         let (tuples, _) = record_batch_to_tuples(&data_batch)
             .map_err(|e| StorageError::Other(format!("Arrow conversion error: {e}")))?;
 
         // Combine with time and diff
-        for (i, tuple) in tuples.into_iter().enumerate() {
+        for (i, mut tuple) in tuples.into_iter().enumerate() {
+            if !tagged.is_empty() {
+                let mut values = tuple.values().to_vec();
+                for (col, decoded) in &mut tagged {
+                    values[*col] = std::mem::replace(&mut decoded[i], Value::Null);
+                }
+                tuple = Tuple::new(values);
+            }
             updates.push(Update {
                 data: tuple,
                 time: times.value(i),
